@@ -1,12 +1,12 @@
 (* Eval.v — implementation model of synchronous evaluation:
    selectors.py (resolve), filter.py (evaluate), env.py (is_truthy, compare, _eq, _lt,
-   _contains), function_extensions/{length,count,value,match,search}.py, path.py (finditer),
+   _contains), function_extensions/{length,count,value,match,search,typeof}.py, path.py (finditer),
    as repaired by the fix: commits.  Code-shaped: one definition per method.
 
    Regular expressions are an oracle: [re_full pattern flags s] / [re_search pattern s]
    answer None for a pattern that does not compile (Section variables; for execution they
-   are instantiated by rt/Regex.v). isinstance()/typeof() and custom functions are not
-   modelled (EUnsupported). *)
+   are instantiated by rt/Regex.v). isinstance() (and the aliases is/type) and custom functions
+   are not modelled (EUnsupported). *)
 From JP Require Import Base Json PyStr PySlice PyJsonStr Syntax.
 
 (* a JSONPathMatch: value, parts, path string (root and filter context are constant during
@@ -210,6 +210,7 @@ Section Eval.
   Definition name_value : ustr := [118; 97; 108; 117; 101]%N.
   Definition name_match : ustr := [109; 97; 116; 99; 104]%N.
   Definition name_search : ustr := [115; 101; 97; 114; 99; 104]%N.
+  Definition name_typeof : ustr := [116; 121; 112; 101; 111; 102]%N.           (* non-standard, function_extensions/typeof.py *)
 
   Inductive etype := TValue | TLogical | TNodes.
 
@@ -220,6 +221,7 @@ Section Eval.
     else if ustr_eqb name name_value then Some ([TNodes], TValue)
     else if ustr_eqb name name_match then Some ([TValue; TValue], TLogical)
     else if ustr_eqb name name_search then Some ([TValue; TValue], TLogical)
+    else if ustr_eqb name name_typeof then Some ([TNodes], TValue)
     else None.
 
   (* FunctionExtension._unpack_node_lists for one argument *)
@@ -249,6 +251,26 @@ Section Eval.
 
   Definition int_val (z : Z) : fval := VVal (JNum (num_of_Z z)).
   Definition bool_val (b : bool) : fval := VVal (JBool b).
+
+  (* the strings TypeOf.__call__ returns (single_number_type = True, the registered default) *)
+  Definition word_undefined : ustr := [117; 110; 100; 101; 102; 105; 110; 101; 100]%N.
+  Definition word_null : ustr := [110; 117; 108; 108]%N.
+  Definition word_string : ustr := [115; 116; 114; 105; 110; 103]%N.
+  Definition word_array : ustr := [97; 114; 114; 97; 121]%N.
+  Definition word_object : ustr := [111; 98; 106; 101; 99; 116]%N.
+  Definition word_boolean : ustr := [98; 111; 111; 108; 101; 97; 110]%N.
+  Definition word_number : ustr := [110; 117; 109; 98; 101; 114]%N.
+
+  (* the isinstance chain of TypeOf.__call__ on a JSON value *)
+  Definition typeof_word (j : json) : ustr :=
+    match j with
+    | JNull => word_null
+    | JStr _ => word_string
+    | JArr _ => word_array
+    | JObj _ => word_object
+    | JBool _ => word_boolean
+    | JNum _ => word_number
+    end.
 
   (* calling the function object with the unpacked arguments *)
   Definition call_function (name : ustr) (args : list fval) : result fval :=
@@ -285,6 +307,17 @@ Section Eval.
       | [VVal (JStr s); VVal (JStr p)] =>
           Ok (bool_val (match re_search p s with Some b => b | None => false end))
       | [_; _] => Ok (bool_val false)
+      | _ => Err (EBuiltin BTypeError)
+      end
+    else if ustr_eqb name name_typeof then
+      match args with
+      | [VNodes []] => Ok (VVal (JStr word_undefined))              (* if not nodes *)
+      | [VNodes [n]] => Ok (VVal (JStr (typeof_word (m_val n))))    (* values_or_singular: the one value *)
+      | [VNodes _] => Ok (VVal (JStr word_array))                   (* values_or_singular: a list *)
+      | [VVal j] =>                                                 (* not a NodeList *)
+          if py_truthy j then Err (EBuiltin BAttributeError)        (* .values_or_singular on a non-NodeList *)
+          else Ok (VVal (JStr word_undefined))                      (* falsy: if not nodes *)
+      | [_] => Err (EBuiltin BAttributeError)                       (* UNDEFINED, a compiled pattern: truthy *)
       | _ => Err (EBuiltin BTypeError)
       end
     else Err EUnsupported.
